@@ -91,7 +91,7 @@ Section IntegratorProofs.
   (* ================================================================== *)
   (** * Frame: the tree-internal functions do not touch stack / pending / data *)
 
-  Definition pts s := (stack s, pending s, data s).
+  Definition pts s := (stack s, pending s, data s, xmap s).
 
   Lemma pts_upd s i f : pts (upd s i f) = pts s. Proof. reflexivity. Qed.
 
@@ -158,8 +158,8 @@ Section IntegratorProofs.
   Definition PInv (H : list X) s : Prop :=
     NoDup (H ++ stack s) /\ forall x, In x (H ++ stack s) -> In x (pending s) \/ In x (data s).
 
-  Definition PQ (H : list X) (p : list X * list X * list X) : Prop :=
-    let '(stk, pnd, dat) := p in
+  Definition PQ (H : list X) (p : list X * list X * list X * list (X * list nat)) : Prop :=
+    let '(stk, pnd, dat, _) := p in
     NoDup (H ++ stk) /\ forall x, In x (H ++ stk) -> In x pnd \/ In x dat.
 
   Lemma PInv_pts H s : PInv H s <-> PQ H (pts s).
